@@ -222,25 +222,38 @@ func run(c *core.Ctx) {
 	default:
 		w = gen.New(t, k).Top()
 	}
+	xl := false
 	if !canary && c.RunIndex%ColdEvery != 0 && t.Bool(1, 48) {
 		// a busy list: code that treats long lists differently (chunked scans, helper goroutines,
 		// indexes built past a threshold) only shows itself on one. v is a collection (or a bare list)
 		// with 129..600 member ids, w holds the same members in another order (so that comparisons
 		// and membership tests find what they look for)
-		sizes := []int{129, 257}
+		sizes := []int{129, 257, 129, 257, 129, 257, 600, 1100}
 		if c.Tier == "thorough" {
-			sizes = []int{129, 257, 257, 600}
+			sizes = []int{129, 257, 257, 600, 600, 1100, 1100, 2100}
 		}
 		n := sizes[t.Draw(len(sizes))]
+		xl = n >= 1000
 		members := make(ap.ItemCollection, n)
 		for i := range members {
-			members[i] = g.IRI()
+			if i > 0 && t.Bool(1, 8) {
+				// (not all members are alike: an embedded note among the ids, as in a page of replies)
+				members[i] = &ap.Object{ID: g.IRI(), Type: ap.NoteType, Content: ap.DefaultNaturalLanguageValue("reply")}
+			} else {
+				members[i] = g.IRI()
+			}
 		}
 		rot := make(ap.ItemCollection, n)
 		for i := range rot {
 			rot[i] = members[(i+n/3)%n]
 		}
-		switch t.Draw(3) {
+		kindOfList := t.Draw(3)
+		if xl && kindOfList != 2 {
+			// (comparing two lists of more than a thousand members is quadratic by design: the XL runs
+			// keep to encoders, membership and inspection)
+			kindOfList = 2
+		}
+		switch kindOfList {
 		case 0:
 			v, w = members, rot
 		case 1:
@@ -259,6 +272,15 @@ func run(c *core.Ctx) {
 	nTasks := 2 + t.Draw(5)
 	maxOps := 1 + t.Draw(6)
 	defs := e.catalogue()
+	if xl {
+		lin := defs[:0:0]
+		for _, d := range defs {
+			if !strings.Contains(d.name, "Equal") {
+				lin = append(lin, d)
+			}
+		}
+		defs = lin
+	}
 	plans := make([]taskPlan, nTasks)
 	notDriven := 0
 	buildTask := func(t *core.Tape, ti int) []*op {
@@ -804,12 +826,18 @@ func independentDoc(t *core.Tape) []byte {
 func decodeOp(t *core.Tape, task int) (*op, *op) {
 	k := gen.Knobs{MaxDepth: 1 + t.Draw(2), FieldP: 2 + t.Draw(6), MaxList: 2, Budget: 8, Links: true}
 	g := gen.New(t, k)
-	which := t.Draw(5)
+	which := t.Draw(6)
 	val := g.Top()
 	var data []byte
 	var name string
 	var dec func([]byte) (any, error)
 	switch which {
+	case 5:
+		// a document as a peer server writes it (gen/peerdoc.go: every @context form including a
+		// declared @language, language maps, null members, odd ids, perturbed shapes)
+		data = gen.PeerDoc(t)
+		name = "pkg.UnmarshalJSON"
+		dec = func(b []byte) (any, error) { return ap.UnmarshalJSON(b) }
 	case 4:
 		// a document from an independent writer, in shapes the library's own encoder does not
 		// produce: language maps under the plain term, very short texts, nested objects
@@ -857,7 +885,7 @@ func decodeOp(t *core.Tape, task int) (*op, *op) {
 		}
 	}
 	damaged := false
-	if which != 4 && t.Bool(1, 3) && len(data) > 0 {
+	if which < 4 && t.Bool(1, 3) && len(data) > 0 {
 		prog := wire.DrawProgram(t, len(data), 2, []string{wire.Truncate, wire.BitFlip, wire.DropChunk, wire.ZeroChunk})
 		data = wire.Run(data, prog, nil)
 		damaged = true
